@@ -12,7 +12,7 @@ SIZES = {"quick": 23000, "thorough": 225000}
 BATCH = 5000
 SEARCH_TRIES = 60
 EXTRA_MODULES = ("Sentinel.Lemmas.BreakerRace",)
-RULE = ("cases = one real breaker (error count / error ratio / slow ratio; timeout, minRequestAmount, threshold, probeNum varied) + a sequential "
+RULE = ("cases = one real breaker (error count / error ratio / slow ratio; timeout (incl. non-round values 997/1001/1009/3333/12345 ms), minRequestAmount, threshold, probeNum varied) + a sequential "
         "set-up phase (closed / just opened / open one ms before the deadline / open at the deadline / half-open with the probe outstanding) + one "
         "concurrent phase of 2-3 threads running TryPass (optionally blocked afterwards -> exit-hook rollback) and OnRequestComplete calls under an "
         "explicit schedule of cb.* yield-point steps and clock ticks. Part 1 (deterministic): for every set-up and every ordered pair of single-call "
@@ -35,6 +35,13 @@ CONFIGS = [
     ("er", 1, 0, fbits(1.0), 0, 0, 1, "c:1:ok", "c:1:err"),
     ("er", 7, 2, fbits(0.5), 3, 0, 2, "c:1:ok", "c:1:err"),
     ("sr", 10, 2, fbits(0.5), 1, 5, 2, "c:5:ok", "c:6:ok"),
+    # retry timeouts that are not round (in seconds they are not exact binary fractions): the set-ups `almost` / `due` probe
+    # exactly at deadline - 1 / deadline, and the oracle checks every deadline store against now + RetryTimeoutMs
+    ("ec", 1001, 1, "1", 0, 0, 1, "c:1:ok", "c:1:err"),
+    ("ec", 1009, 1, "1", 1, 0, 1, "c:1:ok", "c:1:err"),
+    ("er", 12345, 0, fbits(1.0), 0, 0, 1, "c:1:ok", "c:1:err"),
+    ("sr", 3333, 1, fbits(0.5), 0, 5, 1, "c:5:ok", "c:6:ok"),
+    ("ec", 997, 1, "1", 0, 0, 1, "c:1:ok", "c:1:err"),
 ]
 SETUPS = ["closed", "opened", "almost", "due", "halfopen", "halfopen-late"]
 MAXSTEPS = {"tp": 3, "tpb": 4, "tpn": 3, "c": 5, "rd": 1}
